@@ -49,6 +49,7 @@ impl PersistWal {
     /// Ensure writer is open
     fn ensure_writer(&mut self) -> StorageResult<&mut BufWriter<File>> {
         if self.writer.is_none() {
+            let created = !self.current_file.exists();
             let file = OpenOptions::new()
                 .create(true)
                 .append(true)
@@ -64,6 +65,14 @@ impl PersistWal {
                     );
                     e
                 })?;
+            if created {
+                // A freshly created WAL file is only reachable after a power loss once its
+                // directory entry is durable: fsync the WAL directory once per new file,
+                // otherwise the entries fsynced into it below can vanish with the file.
+                if let Ok(dir) = File::open(&self.wal_dir) {
+                    let _ = dir.sync_all();
+                }
+            }
             self.writer = Some(BufWriter::new(file));
         }
         Ok(self
@@ -311,6 +320,9 @@ impl PersistWal {
         // Atomic rename: replaces old WAL with the new one.
         // On POSIX, rename is atomic - either the old or new file is visible.
         fs::rename(&new_file, &self.current_file)?;
+        if let Ok(dir) = File::open(&self.wal_dir) {
+            let _ = dir.sync_all();
+        }
 
         self.entries_written = surviving.len();
         Ok(())
